@@ -5,6 +5,7 @@ import (
 	"go/constant"
 	"go/token"
 	"go/types"
+	"os"
 	"sort"
 	"strings"
 
@@ -26,6 +27,7 @@ func init() {
 		Explanation: "R1 co-update (loop-header φ comparison in the path evaluator — the function of package parsepath that ranges over a protopath.Path and moves a protoreflect.Value cursor): on every path round the loop, if the value cursor changes then the descriptor cursor changes too (a step may retarget the descriptor without moving the value, never the reverse). " +
 			"R2 descriptor transfer (the part of the planned R2 that is decidable from the evaluator alone): a value cursor taken out of a protoreflect.Map comes with a descriptor cursor taken from FieldDescriptor.MapValue(); one taken out of a List does not. " +
 			"R3 exhaustiveness: the evaluator's step-kind switch covers every protopath.StepKind constant; the parser's token switch covers every token-kind constant of the package except those compared elsewhere (end of input) and has an error default; ParsePath returns a path only on a path dominated by the end-of-input test and a true state predicate. " +
+			"R12 (T21 over gcetcbendorsement/parsepath) a difference of two non-constant positions that feeds a strings.Repeat count, a make size, an index or a slice bound is known non-negative (guarded or clamped). " +
 			"R11 (= C03.R9) the CLI's output back end replaces an existing output file wholly, so the file left by inspect --out is the field bytes and nothing else. " +
 			"R5 raw renderings: InspectPayload / InspectSignature hand the field bytes (same access path as the endorsement field) to WriteBytesForm, and WriteBytesForm's raw arm writes its parameter itself. " +
 			"R5b the Form field of the inspection options is never written outside construction (the byte form is an input of each rendering, not state carried from one writer to the next). " +
@@ -45,6 +47,18 @@ func runC19(c *Ctx) {
 	// writer: the output back end replaces an existing file wholly (an open without truncation keeps the old tail of a
 	// longer file after the field bytes).
 	c.borrow("R11/C03.", runC03, func(rule, _ string) bool { return rule == "R9" })
+	// R12 (T21 in the parser package): a difference of two positions that ends up as a repeat count, an allocation
+	// size, an index or a slice bound is known non-negative (guarded, or clamped on the way): error rendering and
+	// scanning never panic on a long or odd path.
+	{
+		var fns []*ssa.Function
+		for _, f := range c.P.RepoFunctions() {
+			if load.RelPkg(f) == "gcetcbendorsement/parsepath" && !c.isTestFunc(f) {
+				fns = append(fns, f)
+			}
+		}
+		c.S.Floor("R12", "differences of positions feeding counts, sizes or bounds in the parser package", 1, c.guardedSubRule("R12", fns, t21Reasons, os.Getenv("VCHECK_SURVEY") != ""))
+	}
 	gcePkg := repoPath("gcetcbendorsement")
 	epbPkg := repoPath("proto/endorsement")
 	// ---- discover the evaluator ----
